@@ -82,6 +82,9 @@ def decide_board(idx, cls, moves, rewards, loose, p_tile, p_robot, p_light, manu
     st["boards_length1"] = int(L == 1)
     st["boards_down_only_tile"] = int(any(3 in r for r in moves))
     st["boards_loose_tile"] = int(any(1 in r for r in loose))
+    if L >= 2 and all(r == moves[0] for r in moves) and idx % 2 == 0:
+        moves = [moves[0]] * L                       # [[...]] * L : every row is the SAME list object (a common way to write a board)
+        st["boards_aliased_rows"] = 1
     decoy = None
     if manual and L * W >= 2:
         # same shape, same largest reward, same down-only-ness: the manual file name is the same; layout differs
@@ -198,9 +201,14 @@ def run_batch(batch):
         rng = games.case_rng(seed, PID, cls, idx)
         L, W = rng.choice([1, 1, 2, 3, 4, 5, 6, 8]), rng.choice([1, 1, 2, 3, 4, 5, 6, 8])
         if idx % 20 == 7:
-            L, W = rng.choice([(9, 10), (12, 8), (10, 13), (29, 3), (3, 30), (12, 12)])     # more than 85 tiles
+            L, W = rng.choice([(9, 10), (12, 8), (10, 13), (29, 3), (3, 30), (12, 12), (12, 11), (13, 25)])     # more than 85 tiles; two-digit rows and columns
         fd = rng.random() < 0.5
         moves, rewards, loose = rg.gen_rnd_board(rng.randrange(2 ** 31), L, W, rng.choice([.1, .3, .5, .9]), rng.choice([1, 6, 20]), fd)
+        if idx % 6 == 1 and L >= 2:
+            moves = [list(moves[0]) for _ in range(L)]          # identical rows (decide_board passes them as one shared object)
+            if fd and 3 not in moves[0]:
+                for r in moves:
+                    r[0] = 3
         pt, prb, pl = rng.choice(PROBS), rng.choice(PROBS), rng.choice(PROBS)
         if rng.random() < 0.3:
             pt, prb, pl = rng.uniform(0.001, 0.999), rng.uniform(0.001, 0.999), rng.uniform(0.001, 0.999)
